@@ -75,12 +75,21 @@ def lake_build(targets: list[str]) -> tuple[bool, str]:
     return p.returncode == 0, (p.stdout + p.stderr)[-6000:]
 
 
-def prop_theorems(prop: str) -> list[str]:
-    f = LEAN / "AnyioModel" / "Props" / f"{prop}.lean"
-    if not f.exists():
-        return []
-    src = strip_comments(f.read_text())
-    return re.findall(rf"^\s*theorem\s+({prop}_\w+)", src, re.M)
+def prop_files(prop: str) -> list[Path]:
+    """Props/Cxx.lean plus companions Props/Cxx<suffix>.lean (e.g. C04pure.lean)"""
+    d = LEAN / "AnyioModel" / "Props"
+    return sorted(f for f in d.glob(f"{prop}*.lean") if re.fullmatch(rf"{prop}[a-z_]*", f.stem))
+
+
+def prop_theorems(prop: str) -> list[tuple[str, str, str]]:
+    """(module, namespace, theorem name) for every `theorem Cxx_*` of the property's files"""
+    out = []
+    for f in prop_files(prop):
+        src = strip_comments(f.read_text())
+        ns = re.findall(r"^namespace\s+(\S+)", src, re.M)
+        for t in re.findall(rf"^\s*theorem\s+({prop}_\w+)", src, re.M):
+            out.append((f"AnyioModel.Props.{f.stem}", ns[0] if ns else "", t))
+    return out
 
 
 def import_closure(module: str) -> list[Path]:
@@ -105,18 +114,21 @@ def audit(prop: str) -> dict[str, Any]:
     """grep for forbidden constructs in all of lean/, then #print axioms for the property's
     theorems."""
     problems: list[str] = []
-    for f in import_closure(f"AnyioModel.Props.{prop}"):
+    closure: dict[Path, None] = {}
+    for pf in prop_files(prop):
+        for f in import_closure(f"AnyioModel.Props.{pf.stem}"):
+            closure[f] = None
+    for f in closure:
         m = FORBIDDEN.search(strip_comments(f.read_text()))
         if m:
             problems.append(f"{f.relative_to(LEAN)}: forbidden construct {m.group(0).strip()!r}")
-    thms = prop_theorems(prop)
-    ns_file = LEAN / "AnyioModel" / "Props" / f"{prop}.lean"
-    namespaces = re.findall(r"^namespace\s+(\S+)", strip_comments(ns_file.read_text()), re.M) if ns_file.exists() else []
-    ns = namespaces[0] if namespaces else ""
+    triples = prop_theorems(prop)
+    thms = [t for _, _, t in triples]
     audited: dict[str, list[str]] = {}
     if thms:
-        body = f"import AnyioModel.Props.{prop}\n" + "".join(
-            f"#print axioms {ns + '.' if ns else ''}{t}\n" for t in thms
+        mods = sorted({m for m, _, _ in triples})
+        body = "".join(f"import {m}\n" for m in mods) + "".join(
+            f"#print axioms {ns + '.' if ns else ''}{t}\n" for _, ns, t in triples
         )
         tmp = LEAN / f".audit_{prop}_{os.getpid()}.lean"
         tmp.write_text(body)
@@ -300,7 +312,8 @@ def check_main(
         print(f"VIOLATION property={prop} replay={replay_path}{suffix}", flush=True)
 
     # 1. build
-    ok, log = lake_build([f"AnyioModel.Props.{prop}"] + [f"md_{m}" for m in (models or [])])
+    ok, log = lake_build([f"AnyioModel.Props.{f.stem}" for f in prop_files(prop)]
+                         + [f"md_{m}" for m in (models or [])])
     build_problem = None if ok else "lake build failed:\n" + log[-3000:]
     # 2. audit
     aud = {"theorems": [], "clean": [], "partial": [], "axioms": [], "problems": []}
